@@ -139,15 +139,21 @@ pub fn run(seed: u64, shard: u64, nshards: u64, cases: u64, rounds: usize, threa
                 let poll_delay = rng.below(6000);
                 // ---- run
                 let results: Mutex<Vec<Done>> = Mutex::new(Vec::new());
+                // set by the first request that gets no answer: the others stop queueing up behind a wedged tower
+                let stuck = std::sync::atomic::AtomicBool::new(false);
                 let poll_window: Mutex<Option<(Instant, Instant)>> = Mutex::new(None);
                 std::thread::scope(|sc| {
                     for plan in &plans {
                         let api = api.clone();
                         let world = &world;
                         let results = &results;
+                        let stuck = &stuck;
                         let mut trng = rng.fork(plan.len() as u64 + results.lock().unwrap().len() as u64);
                         sc.spawn(move || {
                             for req in plan {
+                                if stuck.load(Ordering::SeqCst) {
+                                    break;
+                                }
                                 std::thread::sleep(Duration::from_micros(trng.below(1500)));
                                 let t0 = Instant::now();
                                 let mut d = Done { req: req.clone(), t0, t1: t0, ok: false, code: None, nums: (0, 0, 0), sig: String::new(), user_sig: String::new() };
@@ -193,6 +199,9 @@ pub fn run(seed: u64, shard: u64, nshards: u64, cases: u64, rounds: usize, threa
                                     }
                                 }
                                 d.t1 = Instant::now();
+                                if d.code == Some(Code::DeadlineExceeded) {
+                                    stuck.store(true, Ordering::SeqCst);
+                                }
                                 results.lock().unwrap().push(d);
                             }
                         });
@@ -376,10 +385,15 @@ pub fn run(seed: u64, shard: u64, nshards: u64, cases: u64, rounds: usize, threa
             }
             r.sample(|| json!({"engine":"e3s","case": id, "rounds": rounds_done, "requests": n_requests, "overlapping_pairs": overlaps.load(Ordering::Relaxed)}));
         }
+        let wedged = viols.iter().any(|v| v.1.starts_with("C11:no-progress"));
         if inconclusive.is_none() {
             for (p, sig, detail) in viols {
                 rep.p(p).violation(sig, detail, replay.clone());
             }
+        }
+        if wedged {
+            // one witness of a tower that stops answering is enough for this shard (every further case would wait for its time-outs)
+            break;
         }
     }
     std::fs::remove_dir_all(&dir).ok();
